@@ -278,7 +278,7 @@ func (e *SeqEval) Eval(v ssa.Value) Seq {
 		}
 		if cal := StaticCallee(&x.Call); cal != nil {
 			if cal.Pkg != nil && cal.Pkg.Pkg.Path() == "bytes" && cal.Name() == "Join" {
-				if elems, ok := SliceElems(e.resolve(x.Call.Args[0])); ok {
+				if elems, ok := e.listElems(x.Call.Args[0], 0); ok {
 					sep := e.Eval(x.Call.Args[1])
 					var out Seq
 					for i, el := range elems {
@@ -347,4 +347,30 @@ func (e *SeqEval) EvalLen(v ssa.Value) LinLen {
 		}
 	}
 	return LinLen{Coef: map[string]int64{}, Bad: Render(v)}
+}
+
+// listElems reconstructs, along the path, the elements of a [][]byte that was built from a literal and appends of literal lists.
+func (e *SeqEval) listElems(v ssa.Value, depth int) ([]ssa.Value, bool) {
+	if depth > 16 {
+		return nil, false
+	}
+	v = e.resolve(v)
+	if elems, ok := SliceElems(v); ok {
+		return elems, true
+	}
+	switch x := v.(type) {
+	case *ssa.Const:
+		if x.Value == nil {
+			return nil, true
+		}
+	case *ssa.Call:
+		if b, ok := x.Call.Value.(*ssa.Builtin); ok && b.Name() == "append" && len(x.Call.Args) == 2 {
+			head, ok1 := e.listElems(x.Call.Args[0], depth+1)
+			tail, ok2 := e.listElems(x.Call.Args[1], depth+1)
+			if ok1 && ok2 {
+				return append(append([]ssa.Value(nil), head...), tail...), true
+			}
+		}
+	}
+	return nil, false
 }
